@@ -387,6 +387,7 @@ Proof.
     + destruct (written_shape_ok style d'); [reflexivity|].
       destruct (writes_default name g); [|discriminate].
       destruct (sdefault g) as [v|]; [|discriminate].
+      destruct (match needs_quoting_ng (Some t) with Ok _ => false | Err _ => true end); [discriminate|].
       destruct (finding_class_C17 ADefaultsTo d v (Some t)); [discriminate|].
       destruct v; try discriminate.
       destruct (negb (str_eqb (unquote s) s) && negb (null_default (VStr s))); [discriminate|].
@@ -394,6 +395,7 @@ Proof.
                 && negb (null_default (VStr s)) && negb (mem_c (ch 91) t)); discriminate.
     + destruct (writes_default name g); [|discriminate].
       destruct (sdefault g) as [v|]; [|discriminate].
+      destruct (match needs_quoting_ng (Some t) with Ok _ => false | Err _ => true end); [discriminate|].
       destruct (finding_class_C17 ADefaultsTo d v (Some t)); [discriminate|].
       destruct v; try discriminate.
       destruct (negb (str_eqb (unquote s) s) && negb (null_default (VStr s))); [discriminate|].
